@@ -73,8 +73,9 @@ class C02(Prop):
                 for mand in ([], ["from __future__ import annotations"]):
                     if mand and tool != "tidy":
                         continue
-                    out.append(dict(text=text, tool=tool, params={}, known=[], mandatory=mand,
-                                    flags=dict(add_missing=False, remove_unused=ru, add_mandatory=bool(mand))))
+                    for params in ({}, {"separate_from_imports": False}):
+                        out.append(dict(text=text, tool=tool, params=params, known=[], mandatory=mand,
+                                        flags=dict(add_missing=False, remove_unused=ru, add_mandatory=bool(mand))))
         return out
 
     def run_impl(self, case):
